@@ -85,21 +85,43 @@ func registerChild[B, S emulated.FieldParams](ref *swCurve) {
 			}()
 		}
 		wg.Wait()
-		// confirmation on the whole gadget (incomplete arithmetic, P = G)
-		for _, s := range hangs {
-			s := s
-			wg.Add(1)
-			go func() {
-				defer wg.Done()
+		// confirmation on the whole gadget (incomplete arithmetic, P = G).  A control run with the
+		// generic scalar t (which terminates) is timed under the same load, concurrently with the
+		// suspects; a suspect is declared non-terminating only after max(40 s, 25 x control time).
+		if len(hangs) > 0 {
+			type res struct {
+				s    namedScalar
+				done chan struct{}
+			}
+			var rs []res
+			t0 := time.Now()
+			for _, s := range hangs {
+				r := res{s, make(chan struct{})}
+				rs = append(rs, r)
 				k := &opCase{sp: opSpec{op: "scalarmul"}, pts: []namedPoint{ref.point("G")}, scs: []namedScalar{s}}
-				if guarded(40*time.Second, func() { execOp(fam, k) }) {
-					fmt.Println("C16CHILD GADGET-HANG", s.name)
-				} else {
-					fmt.Println("C16CHILD GADGET-RETURNED", s.name)
+				go func() { defer close(r.done); execOp(fam, k) }()
+			}
+			c0 := time.Now()
+			execOp(fam, &opCase{sp: opSpec{op: "scalarmul"}, pts: []namedPoint{ref.point("G")}, scs: []namedScalar{ref.scalar("t")}})
+			ctrl := time.Since(c0)
+			lim := 40 * time.Second
+			if x := 25 * ctrl; x > lim {
+				lim = x
+			}
+			fmt.Println("C16CHILD CONTROL", ctrl.Milliseconds(), "ms; limit", lim.Milliseconds(), "ms")
+			for _, r := range rs {
+				rem := lim - time.Since(t0)
+				if rem < 0 {
+					rem = 0
 				}
-			}()
+				select {
+				case <-r.done:
+					fmt.Println("C16CHILD GADGET-RETURNED", r.s.name)
+				case <-time.After(rem):
+					fmt.Println("C16CHILD GADGET-HANG", r.s.name)
+				}
+			}
 		}
-		wg.Wait()
 	}
 }
 
@@ -139,7 +161,7 @@ func screen(c *vh.Check, ref *swCurve) {
 	if ref.lambda == nil || childFams[ref.name] == nil {
 		return
 	}
-	ctx, cancel := context.WithTimeout(context.Background(), 120*time.Second)
+	ctx, cancel := context.WithTimeout(context.Background(), 30*time.Minute)
 	defer cancel()
 	cmd := exec.CommandContext(ctx, os.Args[0])
 	cmd.Env = append(os.Environ(), "C16_CHILD="+ref.name, "GOMAXPROCS=6")
